@@ -3,7 +3,9 @@
    wrappers on iter_chunks and NpyWriter.append:
    {id, n, chunks (yielded intervals), spikes, nsw, dt, fk, batches (spike indices per yielded
     interval with at least one spike), loaded (decoded cells of np.load, per spike), declOk,
-    extract (decoded cells of extract_waveforms per spike)}
+    extract (decoded cells of extract_waveforms per spike),
+    model (requests to TemplateModel.get_waveforms on a dataset over the same recording with a partial store:
+           [idx (1-based spikes), cids, allStored, stchans (stored channels per requested spike), out])}
    The export machine is run on the logged yields; batches, order and windows are compared, and
    Window() is evaluated on the logged arrays.                                              *)
 EXTENDS Waveforms
@@ -30,6 +32,12 @@ Check1(r) ==
                      e[2][q] = LookupOne(ChansOf(q), Window(r.n, r.spikes[q], r.nsw, ChansOf(q)), e[1], r.nsw))
   /\ Clause(r.id, "ExtractIsWindow", \A q \in 1..Len(r.extract) :
                      r.extract[q] = Window(r.n, r.spikes[q], r.nsw, ChansOf(q)))
+  \* TemplateModel.get_waveforms over the same recording with a PARTIAL store: a request of stored spikes only is
+  \* answered from the store (its stored channels), any request naming a spike that is not stored from the raw data
+  /\ Clause(r.id, "ModelRoute", \A e \in SeqSet(r.model) : \A q \in 1..Len(e.idx) :
+                     e.out[q] = (IF e.allStored
+                                 THEN LookupOne(e.stchans[q], Window(r.n, r.spikes[e.idx[q]], r.nsw, e.stchans[q]), e.cids, r.nsw)
+                                 ELSE Window(r.n, r.spikes[e.idx[q]], r.nsw, e.cids)))
 Step == pc # "done" /\ Next /\ i' = i
 Consume == /\ pc = "done" /\ i <= Len(Trace)
            /\ Check1(Trace[i]) /\ TLCSet(2, i) /\ i' = i + 1
